@@ -5,6 +5,7 @@ import bvsym as sx
 from bvsym import core
 import simnet
 from simnet import Kernel, Net, accept_for
+from .envpatch import EnvPatch
 from .common import Obligation, cover, quiet_logging
 
 PROPERTY = "C11"
@@ -145,9 +146,9 @@ def s_cfg(secure, proxied):
     k = Kernel(step_budget=3000)
     net = Net(k, [{"respond": respond}])
     simnet.install(k, net)  # tls=False: the real _ssl_socket/_wrap_sni_socket run, on the recording ssl module
-    real_ssl, real_os_in_h = H.ssl, H.os
-    H.ssl = FakeSSLModule()
-    H.os = FakeOsMod(real_os, env, {"/env/bundle.pem", "/ca/file.pem"}, {"/env/certs", "/ca/dir"})
+    ep = EnvPatch()
+    ep.replace(_ssl, FakeSSLModule())
+    ep.replace(real_os, FakeOsMod(real_os, env, {"/env/bundle.pem", "/ca/file.pem"}, {"/env/certs", "/ca/dir"}))
     opts = dict(sslopt=sslopt)
     if proxied:
         opts.update(http_proxy_host="proxy.example", http_proxy_port=3128)
@@ -163,7 +164,7 @@ def s_cfg(secure, proxied):
             sx.require(False, "connect raised %s" % type(e).__name__, cr=cr, ch=str(ch), extra=extra)
             return
     finally:
-        H.ssl, H.os = real_ssl, real_os_in_h
+        ep.restore()
         k.shutdown()
         simnet.uninstall()
     cfg = dict(cert_reqs=cr, check_hostname=str(ch), ca=str(ca), cp=str(cp), sh=str(sh), env=env_kind, extra=extra, secure=secure, proxied=proxied)
@@ -246,14 +247,14 @@ def s_seq(first):
         k = Kernel(step_budget=3000)
         net = Net(k, [{}])
         simnet.install(k, net)
-        real_ssl, real_os_in_h = H.ssl, H.os
-        H.ssl = FakeSSLModule()
-        H.os = FakeOsMod(real_os, {}, {"/ca/file.pem"}, set())
+        ep = EnvPatch()
+        ep.replace(_ssl, FakeSSLModule())
+        ep.replace(real_os, FakeOsMod(real_os, {}, {"/ca/file.pem"}, set()))
         try:
             ws = websocket.create_connection("wss://origin.example/chat", timeout=5, sslopt=dict(sslopt))
             ws.shutdown()
         finally:
-            H.ssl, H.os = real_ssl, real_os_in_h
+            ep.restore()
             k.shutdown()
             simnet.uninstall()
         results.append(dict(REC["wraps"][0]) if REC["wraps"] else None)
@@ -290,9 +291,9 @@ def s_shared(kind):
     k = Kernel(step_budget=3000)
     net = Net(k, [{"respond": respond}])
     simnet.install(k, net)
-    real_ssl, real_os_in_h = H.ssl, H.os
-    H.ssl = FakeSSLModule()
-    H.os = FakeOsMod(real_os, {}, set(), set())
+    ep = EnvPatch()
+    ep.replace(_ssl, FakeSSLModule())
+    ep.replace(real_os, FakeOsMod(real_os, {}, set(), set()))
     try:
         if kind == "redirect":
             ws = websocket.create_connection("wss://first.example/x", timeout=5, sslopt=sslopt)
@@ -302,7 +303,7 @@ def s_shared(kind):
                 ws = websocket.create_connection("wss://%s/x" % host, timeout=5, sslopt=sslopt)
                 ws.shutdown()
     finally:
-        H.ssl, H.os = real_ssl, real_os_in_h
+        ep.restore()
         k.shutdown()
         simnet.uninstall()
     names = [w["server_hostname"] for w in REC["wraps"]]
@@ -371,14 +372,14 @@ def s_pair(a, b):
     k = Kernel(step_budget=6000)
     net = Net(k, [{}])
     simnet.install(k, net)
-    real_ssl, real_os_in_h = H.ssl, H.os
-    H.ssl = FakeSSLModule()
-    H.os = FakeOsMod(real_os, {}, {"/ca/file.pem"}, {"/ca/dir"})
+    ep = EnvPatch()
+    ep.replace(_ssl, FakeSSLModule())
+    ep.replace(real_os, FakeOsMod(real_os, {}, {"/ca/file.pem"}, {"/ca/dir"}))
     try:
         _connect(websocket, "first.example", a)
         _connect(websocket, "second.example", b)
     finally:
-        H.ssl, H.os = real_ssl, real_os_in_h
+        ep.restore()
         k.shutdown()
         simnet.uninstall()
     wraps = REC["wraps"]
@@ -402,9 +403,9 @@ def s_threads(a, b):
     k = Kernel(step_budget=8000)
     net = Net(k, [{}])
     simnet.install(k, net)
-    real_ssl, real_os_in_h = H.ssl, H.os
-    H.ssl = FakeSSLModule()
-    H.os = FakeOsMod(real_os, {}, {"/ca/file.pem"}, {"/ca/dir"})
+    ep = EnvPatch()
+    ep.replace(_ssl, FakeSSLModule())
+    ep.replace(real_os, FakeOsMod(real_os, {}, {"/ca/file.pem"}, {"/ca/dir"}))
     pre = {"A": bool(sx.choice("preemptA", 2)), "B": bool(sx.choice("preemptB", 2))}
     first = sx.choice("first", 2)
 
@@ -432,7 +433,7 @@ def s_threads(a, b):
     finally:
         REC["preempt"] = None
         REC["who"] = lambda: None
-        H.ssl, H.os = real_ssl, real_os_in_h
+        ep.restore()
         k.shutdown()
         simnet.uninstall()
     sx.require(not errs, "connection in the second thread failed: %s" % (type(errs[0]).__name__ if errs else ""), a=a, b=b)
